@@ -87,6 +87,19 @@ CLAIMS = {
          'DESIGN.md section 2 (modelled, not verified); OS fairness (some enabled thread eventually runs); the hand-written session model on '
          'sessions not sampled; in-memory network instead of TCP. Partial aspect: real preemption/GIL/kernel buffers cannot be exhibited by the model.',
          'Lean 4 proof (diamond + confluence of a Kahn-style network, induction over phases) + step-level correspondence under a deterministic scheduler'),
+
+ 'C19': ('Lean 4 theorems about the models of the message builders and parsers of both ends (each parser = its regular expression with re.match '
+         'semantics: greedy groups with backtracking, case-insensitive literals): hand_msg_round_trip (any hand, voids, any seat name / Dummy), '
+         'bid_msg_round_trip (38 calls x 4 seats, ANY letter case), bid_msg_alert_round_trip (alert suffix stripped, same call), '
+         'card_msg_round_trip (52 cards x 4 seats x both notations x any case), board_header_round_trip (every number, dealer, vulnerability), '
+         'team_names_round_trip (all names without a double quote / line break), connect_round_trip, lead_prompt_round_trip; framing: '
+         'recv_one_frame, framing_round_trip (any sequence of CR-free messages followed by any partial frame is received intact and in order '
+         'and the reader then stops), chunking_irrelevant, reader_stops_at_eof (every reader state), reader_spins_at_eof_old (negative '
+         'theorem about the reader before the fix). Unbounded message lengths and sequences, by induction.',
+         'Trusted: Lean kernel (3 standard axioms); each Python regex is represented by a hand-written scanner whose agreement with `re` is '
+         'differential-tested on the generated strings (DESIGN appendix F); UTF-8 codec; socket.recv semantics. The receiver is compared on '
+         'the real MessageInterface.receive_message over a fake socket with end-of-stream injected at every byte position.',
+         'Lean 4 proof (scanner models of the regexes, induction over messages and byte streams) + differential correspondence incl. EOF injection'),
 }
 PENDING = 'check not built yet in this session (work in progress, see DESIGN.md section 9); will be claimed when its theorems and correspondence run'
 
